@@ -247,7 +247,40 @@ class SyncC02(SyncSuite):
         op["opt"].pop("merge", None)
         if rng.random() < 0.7:
             op["dst"] = gen.mutate_disk_tree(rng, op["src"]["tree"], rng.choice([0, 1, 2, 3]))
+        # ... and the transfer is then repeated with the unchanged source into the destination it produced
+        op["opt"]["again"] = True
         return op
+
+    def gen_unpriv(self, rng):
+        op = super().gen_unpriv(rng)
+        op["opt"]["again"] = True
+        return op
+
+    def judge(self, op, impl, model):
+        v = super().judge(op, impl, model)
+        ag = impl.get("again") if isinstance(impl, dict) else None
+        if v.spec_ok is False or not ag:
+            return v
+        notes = []
+        if ag["send"] != "ok" or ag["recv"] != "ok":
+            notes.append("the repeated transfer failed: send=%s recv=%s" % (ag["send"], ag["recv"]))
+        elif op["opt"].get("differ") != "none":
+            if ag["reqs"] != 0:
+                notes.append("re-sync of an unchanged source sent %d content requests" % ag["reqs"])
+            if ag["notifs"] != 0:
+                notes.append("re-sync of an unchanged source emitted %d notifications" % ag["notifs"])
+            ino1 = {e["p"]: e["ino"] for e in impl["after"]}
+            ino2 = {e["p"]: e["ino"] for e in ag["after"]}
+            moved = [p for p in ino1 if ino2.get(p) != ino1[p]]
+            if moved or set(ino1) != set(ino2):
+                notes.append("re-sync of an unchanged source replaced inodes / changed the path set: %s" % moved[:3])
+        else:
+            want = sum(1 for e in impl["view"] if e["mode"] & gen_type_mask() == 0 and not e.get("ln"))
+            if ag["reqs"] != want:
+                notes.append("with differencing disabled %d of %d regular files were re-requested" % (ag["reqs"], want))
+        if notes:
+            return Verdict(v.agree, False, "C02: " + "; ".join(notes))
+        return v
 
 
 class SendFilter(SyncSuite):
